@@ -295,7 +295,7 @@ pub fn run_shard(prop: &dyn Prop, tier: Tier, seed: u64, shard: usize, _nshards:
                 }
             }
         });
-        let (r, _, _) = state.into_inner();
+        let (r, _, last_fail) = state.into_inner();
         rep = r;
         match result {
             Ok(()) => {}
@@ -303,7 +303,14 @@ pub fn run_shard(prop: &dyn Prop, tier: Tier, seed: u64, shard: usize, _nshards:
                 // re-run the minimal case to get its own key/message
                 let f = match prop.run_case(&case, &ctx) {
                     Err(f) => f,
-                    Ok(_) => Fail::new("flaky", "minimal case passed when re-run"),
+                    Ok(_) => match last_fail {
+                        // timing dependent (real threads / processes racing): keep what was seen
+                        Some(mut f) => {
+                            f.msg = format!("{} [seen during the search; the shrunk case passed when re-run once more: timing dependent]", f.msg);
+                            f
+                        }
+                        None => Fail::new("flaky", "minimal case passed when re-run"),
+                    },
                 };
                 rep.violations.push(Violation { key: f.key, msg: f.msg, case: serde_json::to_value(&case).unwrap(), origin: format!("generated shard {}", shard) });
             }
